@@ -179,6 +179,16 @@ DISPLAY_PATTERN = {
 DISPLAY_SYMBOLS = {"DualVec": ["\u03b5"], "Dual2Vec": ["\u03b51", "\u03b51\u00b2"], "HyperDualVec": ["\u03b51", "\u03b52", "\u03b51\u03b52"]}
 
 
+MATRIX_WILDCARD = "\x00MATRIX\x00"
+
+
+def display_matches(got, exp):
+    if MATRIX_WILDCARD not in exp:
+        return got == exp
+    pat = "(?s:.+?)".join(re.escape(seg) for seg in exp.split(MATRIX_WILDCARD))
+    return re.fullmatch(pat, got) is not None
+
+
 def fnum(v):
     """Rust's `{}` of an f64 for the dyadic candidate values used here"""
     return str(int(v)) if float(v) == int(v) else repr(float(v))
@@ -201,7 +211,9 @@ def expected_display(ty, parts):
             if blk[0] is None:
                 continue
             if len(blk) > 2:
-                return None  # a 2x2 matrix part: nalgebra's rendering is outside the oracle
+                # a 2x2 matrix part: nalgebra's rendering is outside the oracle; only its position and symbol are expected
+                out += " + " + MATRIX_WILDCARD + sym
+                continue
             out += " + [" + ", ".join(fnum(v) for v in blk) + "]" + sym
         return out
     return None
@@ -223,7 +235,7 @@ def search_display(binary, seed=0):
                 p2 = list(parts)
                 if pat is not None:
                     for k, (a, b) in enumerate(BLOCKS[ty]):
-                        if pat[k] or (b - a) > 2:
+                        if pat[k]:
                             for i in range(a, b):
                                 p2[i] = None
                 exp = expected_display(ty, p2)
@@ -234,7 +246,8 @@ def search_display(binary, seed=0):
     for (ty, p2, exp), ln in zip(reqs, p.stdout.splitlines()):
         if ln.startswith("STR "):
             got = ln[4:].replace("\\n", "\n")
-            if got != exp:
+            if not display_matches(got, exp):
+                exp = exp.replace(MATRIX_WILDCARD, "<nalgebra rendering of the matrix part>")
                 return dict(type=ty, function="display", operands=[p2], scalars=[], observed=got, expected=exp, oracle="documented rendering of the type (lib/replay.py)")
         elif ln.startswith("PANIC"):
             return dict(type=ty, function="display", operands=[p2], scalars=[], observed="panic", expected=exp, oracle="documented rendering of the type (lib/replay.py)")
